@@ -6,6 +6,7 @@ Such a condition is piecewise constant in the variable and can only change truth
 evaluated at every change point and its neighbours (by substituting the literal and folding - nothing is executed).  Between two
 consecutive change points all conditions, hence the path taken and the shape of its result, are constant; so agreement with a
 reference function at all change points (the reference's own change points included) is agreement everywhere."""
+import re
 import absx
 
 def subst(t, var, val):
@@ -82,3 +83,162 @@ def path_holds(o, var, v):
         else:
             return None
     return True
+
+
+# ---------------------------------------------------------------------------------------------------- step functions
+# A *step function* of the variable is a term that is piecewise constant in it and can change value only at a change point of a
+# threshold comparison inside it or at a power of two: comparisons of the shifted variable with constants; ilog2 / checked_ilog2 /
+# leading_zeros of the shifted variable (floor(log2 (x >> s)) changes exactly where x reaches a power of two); and any arithmetic,
+# cast, comparison or Option test over step functions and constants (a function of piecewise constant arguments is piecewise constant
+# with no new change points).  Sizing code - "how many octets will the length / the identifier take" - is of this kind, however it
+# is spelled: `if n < 128 {..}`, `n.ilog2() / 8 + 1`, `(usize::BITS - n.leading_zeros() + 7) / 8`, a shift-and-count loop unrolled.
+
+STEP_CALLS = ('ilog2', 'checked_ilog2', 'leading_zeros')
+CMP = ('Eq', 'Ne', 'Lt', 'Le', 'Gt', 'Ge')
+POW2 = sorted({x for k in range(0, 65) for x in ((1 << k) - 1, 1 << k, (1 << k) + 1)})
+
+class Panics(Exception):
+    """the folded term panics at this value (ilog2 of zero, division by zero)"""
+
+def int_call(t):
+    """(function name, integer type) of a call term of one of core's inherent integer functions of one argument"""
+    if t[0] == 'call' and t[1].startswith('core::num::<impl ') and len(t[2]) == 1:
+        return t[1].rsplit('::', 1)[-1], t[1][len('core::num::<impl '):].split('>')[0]
+    return None
+
+def mentions(t, var):
+    if t == var:
+        return True
+    return isinstance(t, tuple) and any(mentions(x, var) for x in t if isinstance(x, tuple))
+
+def pure_shift(t, var):
+    """t is the variable itself, converted between integer types and / or shifted right by constants"""
+    while True:
+        if t == var:
+            return True
+        if t[0] == 'cast':
+            t = t[1]; continue
+        if t[0] == 'bin' and t[1] == 'Shr' and t[3][0] == 'lit' and isinstance(t[3][1], int):
+            t = t[2]; continue
+        return False
+
+def range_atom(t):
+    """(x, lo, hi) of the test `x matches the range pattern lo..=hi` with integer bounds (None: open end); None for other terms"""
+    if t[0] == 'matches' and isinstance(t[2], str):
+        m = re.match(r'range (-?\d+|None)\.\.=(-?\d+|None)$', t[2])
+        if m:
+            return t[1], (None if m.group(1) == 'None' else int(m.group(1))), (None if m.group(2) == 'None' else int(m.group(2)))
+    return None
+
+def range_as_comparisons(t):
+    """the comparisons with constants a range test amounts to"""
+    x, lo, hi = range_atom(t)
+    return [('bin', 'Ge', x, ('lit', lo))] * (lo is not None) + [('bin', 'Le', x, ('lit', hi))] * (hi is not None)
+
+def fold(t, var, val):
+    """The term with the variable replaced by the integer `val`, folded exactly: arithmetic of the integers (bin_term), `as` casts
+    modulo the width of the target type, ilog2 / checked_ilog2 / leading_zeros of a known number, Option tests and payloads of a
+    known constructor.  Raises Panics where the analysed code would panic whatever the build profile."""
+    if t == var:
+        return ('lit', val)
+    if not isinstance(t, tuple) or not t:
+        return t
+    k = t[0]
+    if k == 'lit':
+        return t
+    if k == 'bin':
+        a, b = fold(t[2], var, val), fold(t[3], var, val)
+        if t[1] in ('Div', 'Rem') and b[0] == 'lit' and b[1] == 0 and not isinstance(b[1], bool):
+            raise Panics('division by zero')
+        return absx.bin_term(t[1], a, b)
+    if k == 'cast':
+        x = fold(t[1], var, val)
+        rng = absx.INT_RANGE.get(str(t[2] or '').replace('&', '').strip())
+        if x[0] == 'lit' and isinstance(x[1], int) and rng is not None:
+            return ('lit', (int(x[1]) - rng[0]) % (rng[1] - rng[0] + 1) + rng[0])
+        return ('cast', x, t[2])
+    if k == 'not':
+        return absx.neg_term(fold(t[1], var, val))
+    if k in ('neg', 'bitnot'):
+        x = fold(t[1], var, val)
+        if x[0] == 'lit' and isinstance(x[1], int):
+            return ('lit', -x[1] if k == 'neg' else ~x[1])
+        return (k, x)
+    if k == 'call':
+        args = tuple(fold(x, var, val) for x in t[2])
+        ic = int_call(t)
+        if ic is not None and ic[0] in STEP_CALLS and args[0][0] == 'lit' and isinstance(args[0][1], int) and not isinstance(args[0][1], bool):
+            x = args[0][1]
+            if ic[0] == 'leading_zeros':
+                rng = absx.INT_RANGE.get(ic[1])
+                if rng is not None:
+                    bits = (rng[1] - rng[0] + 1).bit_length() - 1
+                    return ('lit', bits - (x & ((1 << bits) - 1)).bit_length())
+            else:
+                r = absx.int_log2(x)
+                if ic[0] == 'checked_ilog2':
+                    return ('ctor', 'Some', (('lit', r),)) if r is not None else ('ctor', 'None', ())
+                if r is None:
+                    raise Panics('ilog2 of %d' % x)
+                return ('lit', r)
+        return ('call', t[1], args) + tuple(t[3:])
+    if k == 'is':
+        x = fold(t[1], var, val)
+        if x[0] == 'ctor':
+            return ('lit', x[1] == t[2])
+        return ('is', x) + tuple(t[2:])
+    if k == 'variant':
+        x = fold(t[1], var, val)
+        if x[0] == 'ctor' and x[1] == t[2] and isinstance(t[3], int) and t[3] < len(x[2]):
+            return x[2][t[3]]
+        return ('variant', x) + tuple(t[2:])
+    if k == 'matches' and range_atom(t) is not None:
+        _, lo, hi = range_atom(t)
+        x = fold(t[1], var, val)
+        if x[0] == 'lit' and isinstance(x[1], int) and not isinstance(x[1], bool):
+            return ('lit', (lo is None or lo <= x[1]) and (hi is None or x[1] <= hi))
+        return ('matches', x, t[2])
+    return tuple(fold(x, var, val) if isinstance(x, tuple) else x for x in t)
+
+def step_ok(t, var):
+    """t is a step function of var (see above); a term that does not mention var must be a constant"""
+    if not mentions(t, var):
+        try:
+            return fold(t, var, 0)[0] == 'lit'
+        except Panics:
+            return False
+    if t == var:
+        return False
+    k = t[0]
+    if k == 'bin':
+        if t[1] in CMP and atom_ok(t, var):
+            return True
+        return step_ok(t[2], var) and step_ok(t[3], var)
+    if k in ('cast', 'not', 'neg', 'bitnot', 'is', 'variant'):
+        return step_ok(t[1], var)
+    if k == 'call':
+        ic = int_call(t)
+        return ic is not None and ic[0] in STEP_CALLS and (pure_shift(t[2][0], var) or step_ok(t[2][0], var))
+    if k == 'ctor':
+        return all(step_ok(x, var) for x in t[2])
+    if k == 'matches' and range_atom(t) is not None:
+        return all(atom_ok(c, var) for c in range_as_comparisons(t)) or step_ok(t[1], var)
+    return False
+
+def step_points(terms, var, lo, hi, extra=()):
+    """every point at which one of the step functions `terms` of var can change value, with its neighbours"""
+    atoms = []
+    def rec(t):
+        if not isinstance(t, tuple) or not t:
+            return
+        if t[0] == 'bin' and t[1] in CMP and atom_ok(t, var):
+            atoms.append(t)
+            return
+        if t[0] == 'matches' and range_atom(t) is not None:
+            atoms.extend(c for c in range_as_comparisons(t) if atom_ok(c, var))
+        for x in t:
+            if isinstance(x, tuple):
+                rec(x)
+    for t in terms:
+        rec(t)
+    return change_points(atoms, var, lo, hi, extra=list(extra) + POW2)
